@@ -320,6 +320,7 @@ def run_c08(ctx):
     merge_narrow_index_stream(ctx, 10 if q else 200, merge)
     merge_geometry_stream(ctx, 120 if q else 3000, merge)
     merge_many_stream(ctx, 100 if q else 3000, merge)
+    composition_refinement_stream(ctx, 150 if q else 4000)
     vals = ctx.coq_eval(HEADER, exprs, name="c08chk")
     for (kind, canon, pmap), v in zip(metas, vals):
         ctx.tie(f"T3 {kind}")
@@ -330,6 +331,84 @@ def run_c08(ctx):
                 "missing a referenced point) on meshes of all generated kinds; (2) compositions of 1-4 public transformations "
                 "(sort_points, sort_cells, strip_orphan_points, sort, extend_space_dimension_to, split+merge) on meshes with "
                 "orphan / coincident points, mixed cell types, scalar/vector/tensor/int fields. non-trivial = map is not the identity")
+
+HEADER_COMPOSE = HEADER + """From FC Require Import Model.Compose.
+Definition runview (n : nat) (c : list (nat * list (list nat))) (ops : list op) :=
+  match run (MK (idpts n) c) ops with
+  | Some M => Some (ptids M, cells M)
+  | None => None
+  end.
+"""
+
+
+def composition_refinement_stream(ctx, n):
+    """T2 tie of Model/Compose.v `run` (C08_any_composition_keeps_cells is a theorem about it): sequences of 1-6 public
+    reordering transformations; the index maps of every step are observed through marker fields and handed to the model as
+    one OPoints / OCells / OStrip step each; the model's final point numbering and connectivity must be the implementation's"""
+    from fieldcompare.mesh import sort, sort_points, sort_cells, strip_orphan_points
+    rng = ctx.rng
+    fns = {"sort_points": sort_points, "sort_cells": sort_cells, "strip": strip_orphan_points, "sort": sort}
+    exprs, metas = [], []
+    for _ in range(n):
+        M = G.gen_mesh(rng)
+        if rng.random() < 0.5:
+            G.add_orphans(rng, M)
+        if G.has_coincident_points(M):
+            continue
+        seq = [rng.choice(list(fns)) for _ in range(rng.randint(1, 6))]
+        canon = {"mesh": json_mesh(M), "ops": seq, "stream": "composition refinement"}
+        types = [t for t, _ in M["blocks"]]
+        try:
+            with quiet():
+                warnings.simplefilter("ignore")
+                f = with_markers(M)
+                mops = []
+                for op in seq:
+                    pid_b, cid_b = markers_of(f)
+                    used_b = sorted({c for _, rows in G.from_fieldcompare(f)["blocks"] for r in rows for c in r})
+                    g = fns[op](f)
+                    pid_a, cid_a = markers_of(g)
+                    pos = {v: i for i, v in enumerate(pid_b)}
+                    pmap = [pos[v] for v in pid_a]
+                    if op == "strip" and pmap == used_b:
+                        mops.append("OStrip")
+                    else:
+                        mops.append(f"(OPoints {clist([cnat(i) for i in pmap], 'nat')})")
+                    kmaps = []
+                    for t in types:
+                        cpos = {v: i for i, v in enumerate(cid_b[t])}
+                        kmaps.append([cpos[v] for v in cid_a[t]])
+                    if any(k != sorted(k) for k in kmaps) or rng.random() < 0.3:
+                        mops.append(f"(OCells {clist([clist([cnat(i) for i in k], 'nat') for k in kmaps], '(list nat)')})")
+                    f = g
+                final = strip_markers(G.from_fieldcompare(f))
+                pid_final, _ = markers_of(f)
+        except Exception as e:  # noqa: BLE001
+            if "uniquely sort duplicate" in str(e):
+                ctx.count("c08:duplicate orphan points (documented limitation)")
+                continue
+            ctx.case(canon, True)
+            ctx.violation("E4", f"public transformation raised {type(e).__name__}: {e}", canon)
+            continue
+        exprs.append(f"runview {cnat(len(M['pts']))} {coq_blocks(M)} {clist(mops, 'op')}")
+        for m_ in mops:
+            ctx.count("composition model step:" + m_.strip("(").split(" ")[0])
+        metas.append((canon, pid_final, {G.VTK_ID[t]: [list(r) for r in rows] for t, rows in final["blocks"]}, len(mops)))
+    vals = ctx.coq_eval(HEADER_COMPOSE, exprs, name="c08run")
+    for (canon, pid_final, blocks, nops), v in zip(metas, vals):
+        ctx.tie("T2 Model.Compose.run = composition of the public reordering transformations")
+        ctx.case(canon, True, sample={"case": canon, "impl": [pid_final, blocks], "model": v})
+        ctx.count(f"composition:{len(canon['ops'])} transformations")
+        if v == "None":
+            ctx.violation("E2", "composition model: a step the implementation performed is not defined in the model (a referenced "
+                                "point missing from a point map, or a cell map that is no permutation)", canon, found_input=False)
+            continue
+        _, (mp, mc) = v
+        mblocks = {int(t): [list(r) for r in rows] for t, rows in mc}
+        if [int(x) for x in mp] != pid_final or mblocks != blocks:
+            ctx.violation("E2", f"composition model: final numbering / connectivity of the model ({list(mp)}, {mblocks}) is not the "
+                                f"implementation's ({pid_final}, {blocks})", canon, found_input=False)
+        ctx.traces_validated += 1
 
 
 def split_pieces(rng, M):
